@@ -95,10 +95,11 @@ PLAN = {
     "C06": dict(
         title="Objective functions return the documented loss and gradient",
         level="proof",
-        verus=["C06_objectives.rs", "C06_loss_whole.rs", "C15_clamp_whole.rs"],
+        verus=["C06_objectives.rs", "C06_loss_whole.rs", "C06_constructors.rs", "C15_clamp_whole.rs"],
         kani=True,
-        native_checks=[("objective.derivative", "bounded native grid: for AE / MSE / BCE / KL the reported gradient against central difference quotients of the reported loss, both ranks")],
-        undecided_clauses=["the whole loss() of every objective is proved for every size of both ranks (units *.loss.whole) against contracts of Tensor::single / triple / clamp / get_flat; "
+        native_checks=[("objective.derivative", "bounded native grid: for AE / MSE / BCE / KL the reported gradient against central difference quotients of the reported loss, both ranks"),
+                       ("objective.elementwise", "bounded native grid: all 7 objectives, with and without a clamp, on flat tensors of length 1..5 and 3-D tensors of every extent triple up to 3 (non-square included; targets exactly 0, 1 and equal to the prediction included): loss = the documented aggregate, gradient shape and nesting = the prediction's, every gradient cell = the documented formula at the same nested index, limited to the clamp interval")],
+        undecided_clauses=["the whole loss() of every objective is proved for every size of both ranks (units *.loss.whole) against contracts of Tensor::single / triple / clamp (each discharged on its real body: units tensor.single, tensor.triple, tensor.clamp) and get_flat (C14); "
                            "AE/MSE finiteness is stated for |a|,|p| <= 1e18 (larger finite inputs overflow the exact result)"],
     ),
     "C07": dict(
@@ -106,6 +107,7 @@ PLAN = {
         level="proof",
         verus=["C07_activations.rs", "C07_activation_whole.rs", "C07_softmax.rs"],
         kani=True,
+        native_checks=[("activation.elementwise", "bounded native grid: forward and backward of ReLU / LeakyReLU / Sigmoid / Tanh / Linear on flat tensors of length 1..5 and 3-D tensors of every extent triple up to 3 (non-square included): output shape and nesting = input's, every cell = the definition applied to the input cell at the same nested index (bit-exact)")],
         undecided_clauses=[
             "soft-max shift invariance: not decided (under rounding (v+c)-max(v+c) need not equal v-max(v); the subtraction of the maximum "
             "is what keeps it finite, which IS decided for n = 2; the 3-entry harness does not finish within 3000 s and is disabled)",
@@ -189,6 +191,7 @@ PLAN = {
         level="proof",
         verus=["C15_tensor_ops.rs", "C15_transpose.rs", "C15_mean_pick.rs", "C15_dot_product.rs", "C15_clamp_whole.rs", "C15_inplace_whole.rs"],
         kani=True,
+        native_checks=[("tensor.elementwise", "bounded native grid: add / sub / mul / scaled Hadamard / div-by-scalar in place, clamp and the mean over 3 tensors on operands of ranks 1-D..4-D with every extent tuple up to 3 (non-square included): shape field and nesting unchanged, every cell = the operator on the operand cells at the same nested index (bit-exact); operands of different shapes refused")],
         undecided_clauses=["add / sub / mul / scaled Hadamard / div-by-scalar in place and clamp are proved as WHOLE functions for every size of ranks 1-D..4-D (units tensor.*.whole, tensor.clamp; R57-R59), "
                            "dot and the outer product too (units tensor.dot, tensor.product; R22, R31, R50); the mean over k tensors stays at closure units + bounded harnesses",
                            "nested-list add / div (recursion over Tensor): those arms are skipped in the whole-function units (logged); bounded harnesses only",
@@ -305,7 +308,7 @@ MANIFEST_TEXT = {
              "root of the mean, negation); on flat pairs and on 3-D pairs the gradient has one entry per zipped position at every nesting level (the prediction's shape when "
              "the shapes agree), its shape field describes its data, and every entry is the documented per-element formula - limited to the clamp interval when a clamp is "
              "configured, unchanged otherwise; mixed ranks panic (outside the stated domain). The Kani fold harnesses stay as bounded cross-checks.",
-        note="F1 uninterpreted floats in Verus; F2 ln contract in Kani; derivative table is mathematics (F3); std's in-order float sum is an uninterpreted function of the term sequence (R27); Tensor::single / triple / clamp / get_flat enter the whole-function units by contract (clamp: element-wise f32::clamp keeping the nesting).",
+        note="F1 uninterpreted floats in Verus; F2 ln contract in Kani; derivative table is mathematics (F3); std's in-order float sum is an uninterpreted function of the term sequence (R27); Tensor::single / triple / clamp enter the whole-function units by contract, the same contracts being discharged on the real bodies (units tensor.single, tensor.triple, tensor.clamp); get_flat by contract (C14).",
     ),
     "C07": dict(
         category="proof",
